@@ -1172,10 +1172,11 @@ class URL:
         netloc = self._netloc
         if not encoded:
             path = PATH_QUOTER(path)
-            if netloc:
-                path = normalize_path(path) if "." in path else path
         if path and path[0] != "/":
             path = f"/{path}"
+        if not encoded and netloc:
+            # the dot segments of the rooted path are removed (RFC 3986 5.2.4)
+            path = normalize_path(path) if "." in path else path
         query = self._query if keep_query else ""
         fragment = self._fragment if keep_fragment else ""
         return from_parts(self._scheme, netloc, path, query, fragment)
